@@ -64,6 +64,9 @@ pub fn c09_directed() -> Vec<(&'static str, &'static str)> {
         ("undeclared-after-stop", "print(\"eerst\"); stel i = 0; zolang i < 3 { i += 1; als i == 2 { stop; onbekend }; volgende; print(ook_onbekend) }; i"),
         ("undeclared-after-antwoord-in-block", "functie f() { { antwoord 1; stel x = onbekend } }; print(\"eerst\"); f()"),
         ("use-before-declaration", "print(\"eerst\"); x; stel x = 1"),
+        ("local-function-shadows-global-function", "functie hulp() { 1 } functie buiten() { functie hulp() { 2 }; hulp() }; stel eerst = hulp(); [buiten(), hulp(), eerst]"),
+        ("local-function-shadows-global-variable", "stel teller = 10; functie buiten() { functie teller() { 7 }; teller() }; [buiten(), teller, buiten(), teller + 1]"),
+        ("block-function-shadows-global-function", "functie f() { 1 } { functie f() { 2 }; print(f()) }; f()"),
         ("use-before-function-of-same-name", "stel f = \"buiten\"; { print(f); functie f() { \"binnen\" }; print(f()) }; print(f)"),
         ("use-before-function-of-same-name-in-loop", "stel f = \"buiten\"; stel i = 0; zolang i < 2 { i += 1; print(f); functie f() { \"binnen\" }; print(f()) }; f"),
         ("use-before-function-of-same-name-in-function", "stel g = 5; functie buiten() { stel r = g + 1; functie g() { 100 }; [r, g()] }; [buiten(), g]"),
@@ -118,6 +121,10 @@ fn c10_directed_fixed() -> Vec<(&'static str, &'static str)> {
         ("loop-counter-fused", "stel i = 0; stel som = 0; zolang i < 10 { i += 1; som = som + i * 2 - 1 }; [i, som]"),
         ("division-truncation", "stel n = 0 - 7; [n / 2, n % 2, 7 / n, 7 % n, n / -2]"),
         ("overflow-both-ways", "stel n = 1152921504606846975; n + 1"),
+        ("redeclaration-reads-the-name", "stel x = 1; stel x = x + 1; x"),
+        ("redeclaration-reads-the-name-2", "stel x = 1; stel y = 2; stel x = [x, y]; stel y = x; [x, y]"),
+        ("inner-declaration-reads-the-outer-name", "stel a = 5; { stel a = a; a }"),
+        ("redeclaration-in-loop", "stel i = 0; stel uit = 0; zolang i < 3 { i += 1; stel t = 10; stel t = t; uit = [uit, t] }; uit"),
     ]
 }
 
@@ -249,7 +256,13 @@ impl Check for Meta {
             // the reference is used as a filter only: programs that run into a behaviour the documentation does
             // not fix (reading a variable inside its own initialiser, …) have no meaning to preserve
             let r = crate::refsem::run_program(&tree, 200_000);
-            if matches!(r.outcome, crate::refsem::RefOutcome::Unspecified(_) | crate::refsem::RefOutcome::OutOfSteps) {
+            // (C10 keeps the programs that read a variable inside its own initialiser, 4.3(3): what such a read yields is
+            //  not documented, but C10 says that it cannot depend on whether the variable is a global or a local, on how
+            //  a literal is written or on what else is in the constant pool — the variants must still agree)
+            let self_init_only = self.which == Which::C10 && matches!(&r.outcome, crate::refsem::RefOutcome::Unspecified(why) if why.starts_with("4.3(3)"));
+            if self_init_only {
+                st.count("kept-although-unspecified:4.3(3)");
+            } else if matches!(r.outcome, crate::refsem::RefOutcome::Unspecified(_) | crate::refsem::RefOutcome::OutOfSteps) {
                 st.count("skipped-unspecified-dynamic");
                 return;
             }
